@@ -52,7 +52,7 @@ func TestC19_BackoffObserved(t *testing.T) {
 	if sh, _ := ev.Shard(); sh > 1 {
 		t.Skip("two shards are enough")
 	}
-	ev.Rule(c19, "back-off observed: an auto-connect client against an address that refuses connections for ~2.5 s (second shard: with three pairs of failing user calls Conn/Channel during the outage); dial timestamps from net.Dialer.Control: every gap >= 25 ms (sound lower bound), gaps non-decreasing within a 25% tolerance, none above 1 s + 1.5 s slack")
+	ev.Rule(c19, "back-off observed: an auto-connect client against an address that refuses connections for ~2.5 s (second shard: with three pairs of failing user calls Conn/Channel during the outage); dial timestamps from net.Dialer.Control: every gap >= 25 ms (sound lower bound), gaps non-decreasing within a 25% tolerance after subtracting twice the timer lateness measured by a concurrent 5 ms sleep probe (an observed gap is the nominal back-off plus scheduling lateness), none above 1 s + 1.5 s slack + that lateness")
 	srv, err := netfx.StartServer(echoHandler(), netfx.NewLogger(), mpx.Default())
 	if err != nil {
 		t.Fatalf("infrastructure: %v", err)
@@ -93,7 +93,27 @@ func TestC19_BackoffObserved(t *testing.T) {
 		}()
 		userCalls = 3
 	}
+	// timers fire late on a busy machine and an observed gap is the nominal back-off plus that lateness: a probe
+	// measures how late a 5 ms sleep wakes up during the observation; the comparisons below allow for twice that
+	var lateMax atomic.Int64
+	probeStop := make(chan struct{})
+	go func() {
+		for {
+			select {
+			case <-probeStop:
+				return
+			default:
+			}
+			t0 := time.Now()
+			time.Sleep(5 * time.Millisecond)
+			if over := int64(time.Since(t0) - 5*time.Millisecond); over > lateMax.Load() {
+				lateMax.Store(over)
+			}
+		}
+	}()
 	time.Sleep(2500 * time.Millisecond)
+	close(probeStop)
+	late := 2 * time.Duration(lateMax.Load())
 	mu.Lock()
 	ds := append([]time.Time(nil), dials...)
 	mu.Unlock()
@@ -104,15 +124,16 @@ func TestC19_BackoffObserved(t *testing.T) {
 	for i := 1; i < len(ds); i++ {
 		gaps = append(gaps, ds[i].Sub(ds[i-1]))
 	}
-	kase := map[string]any{"gaps_ms": fmt.Sprint(gaps), "user_calls_during_the_outage": userCalls}
+	kase := map[string]any{"gaps_ms": fmt.Sprint(gaps), "user_calls_during_the_outage": userCalls, "timer_lateness_allowed": late.String()}
+	ev.Label(c19, "backoff-observed:timer-lateness-ms", late.Milliseconds())
 	for i, g := range gaps {
 		if g < 25*time.Millisecond {
 			ev.Violation(t, c19, "backoff-observed-too-short", kase, "consecutive failed dials %d and %d are only %v apart (< 25 ms)", i, i+1, g)
 		}
-		if g > time.Second+1500*time.Millisecond {
+		if g > time.Second+1500*time.Millisecond+late {
 			ev.Violation(t, c19, "backoff-observed-too-long", kase, "gap %d between failed dials is %v (> 1 s plus slack)", i, g)
 		}
-		if i > 0 && float64(g) < 0.75*float64(gaps[i-1]) && gaps[i-1] < 1200*time.Millisecond {
+		if i > 0 && float64(g) < 0.75*float64(gaps[i-1]-late) && gaps[i-1] < 1200*time.Millisecond {
 			ev.Violation(t, c19, "backoff-observed-decreases", kase, "gap %d (%v) is shorter than the previous one (%v) within one run of failures", i, g, gaps[i-1])
 		}
 	}
@@ -214,6 +235,20 @@ func TestC19_StateMachine(t *testing.T) {
 				}
 				time.Sleep(time.Millisecond)
 			}
+		}
+		// persist repeats a Channel call for up to 6 s
+		persist := func() (mpx.Channel, status.Status, bool) {
+			var last status.Status
+			for dl := time.Now().Add(6 * time.Second); time.Now().Before(dl); {
+				ch, st := cl.Channel(ctx())
+				if st.OK() {
+					ev.Label(c19, "call-succeeded-on-retry", 1)
+					return ch, st, true
+				}
+				last = st
+				time.Sleep(20 * time.Millisecond)
+			}
+			return nil, last, false
 		}
 		quiesce := func() {
 			step("quiesce")
@@ -374,7 +409,18 @@ func TestC19_StateMachine(t *testing.T) {
 					ch.Free()
 					fail("close-not-terminal", "Channel() succeeded after Close")
 				case !closed && up && !st.OK() && !dirty:
-					fail("no-recovery", "server reachable, no fault since the last quiescent point, but Channel() returned %v", st)
+					// one failed call is not yet "cannot obtain a connection" (a dial can time out on a busy
+					// machine): it is when calls keep failing
+					if ch2, st2, ok := persist(); ok {
+						ch, st = ch2, st2
+						if st := roundTrip(ch); !st.OK() {
+							ch.Free()
+							fail("connected-but-unusable", "fresh channel round trip returned %v", st)
+						}
+						open = append(open, ch)
+					} else {
+						fail("no-recovery", "server reachable, no fault since the last quiescent point, but Channel() returned %v and kept failing for 6 s (last: %v)", st, st2)
+					}
 				case st.OK():
 					if st := roundTrip(ch); !st.OK() && up && !dirty {
 						ch.Free()
@@ -414,8 +460,15 @@ func TestC19_StateMachine(t *testing.T) {
 					}()
 				}
 				wg.Wait()
+				if closed && bad != "" {
+					fail("close-not-terminal", "%s", bad)
+				}
 				if bad != "" {
-					fail("burst-failed", "%s", bad)
+					if ch, _, ok := persist(); ok {
+						open = append(open, ch)
+					} else {
+						fail("burst-failed", "%s (and calls kept failing for 6 s)", bad)
+					}
 				}
 			case 4: // kill
 				if !closed && up && rapid.IntRange(0, 2).Draw(rt, "killinwindow") == 0 {
